@@ -213,6 +213,58 @@ def explore(res, rng, n):
                 res.stat('negative_density_rejected_' + where)
 
 
+def undefined_ratio_and_two_samplers(res):
+    """(1) a ratio that is not a number (a hand-written density that evaluates to nan outside its support, or 0 / 0 for numpy floats when a
+    chain was started on a zero-density point): `u <= ratio` is false, the chain stays put - in particular it does not leave the support;
+    (2) two live samplers with different keyword arguments for their domain functions: each step is tested against the sampler's OWN domain"""
+    import warnings
+    import numpy as np
+    core.import_impl()
+    from ffpack import rpm
+    semicircle = lambda x: np.sqrt(1.0 - float(np.atleast_1d(x)[0]) ** 2)          # nan outside [-1, 1]
+    zero_outside = lambda x: np.float64(1.0) if abs(float(np.atleast_1d(x)[0])) <= 1 else np.float64(0.0)
+    for label, f, start, cand, must_stay in (('density nan at the candidate', semicircle, [0.5], [1.5], True),
+                                             ('0 / 0 (numpy floats): started outside the support, candidate outside', zero_outside, [2.0], [3.0], True),
+                                             ('density nan at the candidate (far)', semicircle, [-0.25], [-7.0], True)):
+        for u in (0.0, 0.3, 0.999):
+            res.evaluations += 1
+            res.stat('ratio_not_a_number')
+            s = rpm.MetropolisHastingsSampler(initialVal=list(start), targetPdf=f, proposalCSampler=lambda c, cand=cand: np.array(cand, dtype=float))
+            case = {'case': label, 'cur': start, 'cand': cand, 'u': u}
+            try:
+                with warnings.catch_warnings():
+                    warnings.simplefilter('ignore')
+                    with mock.patch.object(np.random, 'uniform', side_effect=lambda *a, **k: u):
+                        out = [float(v) for v in s.getSample()]
+            except ValueError:
+                continue            # (rejecting such a density with an error is admissible)
+            except Exception as e:  # noqa
+                fail(res, 'step raised %s when the acceptance ratio is not a number' % type(e).__name__, 'MetropolisHastingsSampler.getSample', case, None)
+                continue
+            if must_stay and out != [float(v) for v in start]:
+                fail(res, 'the chain moved although the acceptance ratio is not a number (u <= ratio is false)', 'MetropolisHastingsSampler.getSample', case, out)
+    # ---- two samplers alive at the same time, different domain keywords
+    disc = lambda cur, nxt, radius: bool(float(np.sum(np.square(nxt))) <= radius * radius)
+    dens = [lambda x: 1.0, lambda x: 1.0]
+    candA, candB = [[0.0, 0.0]], [[0.0, 0.0]]
+    A = rpm.AuModifiedMHSampler(initialVal=[0.0, 0.0], targetPdf=dens, proposalCSampler=[lambda c: candA[0][0], lambda c: candA[0][1]], sampleDomain=disc, radius=1.0)
+    B = rpm.AuModifiedMHSampler(initialVal=[0.0, 0.0], targetPdf=dens, proposalCSampler=[lambda c: candB[0][0], lambda c: candB[0][1]], sampleDomain=disc, radius=6.0)
+    curA, curB = [0.0, 0.0], [0.0, 0.0]
+    for k, (ca, cb) in enumerate((([0.5, 0.5], [3.0, 3.0]), ([2.0, 1.0], [4.0, -4.0]), ([0.6, -0.7], [7.0, 1.0]), ([3.0, 3.0], [-2.0, 5.0]))):
+        candA[0], candB[0] = ca, cb
+        with mock.patch.object(np.random, 'uniform', side_effect=lambda *a, **k2: 0.5):
+            outA = [float(v) for v in A.getSample()]
+            outB = [float(v) for v in B.getSample()]
+        wantA = ca if ca[0] ** 2 + ca[1] ** 2 <= 1.0 else curA
+        wantB = cb if cb[0] ** 2 + cb[1] ** 2 <= 36.0 else curB
+        res.evaluations += 2
+        res.stat('two_live_samplers_with_their_own_domain_keywords')
+        if outA != wantA or outB != wantB:
+            fail(res, 'a sampler built with domain keyword radius = 1 (another one with radius = 6 alive) does not apply its own domain', 'AuModifiedMHSampler.getSample',
+                 {'step': k, 'candidate_A': ca, 'candidate_B': cb, 'cur_A': curA, 'cur_B': curB}, {'A': outA, 'expected_A': wantA, 'B': outB, 'expected_B': wantB})
+        curA, curB = outA, outB
+
+
 def run(tier, seed):
     res = core.Result(PID, tier, seed)
     res.rule = ('scripted proposals and uniform draws (k/2^m incl. 0 and 1) on integer lattices with integer-valued target tables (exact '
@@ -220,6 +272,7 @@ def run(tier, seed):
     core.prove(res, PID, MODULES, clean=(tier == 'thorough'))
     n = 400 if tier == 'quick' else 20000
     explore(res, random.Random(seed), n)
+    undefined_ratio_and_two_samplers(res)
     if (res.proof_problems or res.disagreements) and not [f for f in res.failures if 'u=0' not in f['signature']]:
         pass
     res.disagreements_checked = res.traces
